@@ -128,4 +128,19 @@ theorem doh_get_decode_src : doh_get_decode = "nil, fmt.Errorf(\"no 'dns' query 
 theorem doh_path_consts_src : doh_path_consts = "\"/dns-query\"" := by decide
 theorem json_path_const_src : json_path_const = "\"/resolve\"" := by decide
 
+/-! Round 4: fault and life-cycle paths. -/
+
+/-- Every per-request entry point recovers from a panic of the handler before anything else can be
+skipped (`Agd.Serve.serveMsgF true`): UDP (`udp_serve_calls`), TCP/DoT, DoH (`serve_http_calls`), DoQ and —
+since the fix — DNSCrypt, whose library does not recover on its own goroutines. -/
+theorem dnscrypt_recover_calls_src : dnscrypt_recover_calls = "requestContext,handlePanicAndRecover,serveDNSMsg,WriteMsg" := by decide
+theorem tcp_msg_recover_calls_src : tcp_msg_recover_calls = "Done,handlePanicAndRecover,serveDNS,OnCloserError" := by decide
+theorem quic_stream_recover_calls_src : quic_stream_recover_calls = "Done,handlePanicAndRecover,serveQUICStream" := by decide
+/-- `Shutdown` releases the worker pool after waiting for the workers; every `Start` of a pooled server
+reopens it before the listeners are created (`Agd.Serve.lStep true true`). -/
+theorem dns_start_pool_calls_src : dns_start_pool_calls = "Reboot,listenUDP,listenTCP" := by decide
+theorem tls_start_pool_calls_src : tls_start_pool_calls = "Reboot,listenTLS" := by decide
+theorem quic_start_pool_calls_src : quic_start_pool_calls = "Reboot,listenQUIC" := by decide
+theorem dns_shutdown_pool_calls_src : dns_shutdown_pool_calls = "shutdown,unblockTCPConns,waitShutdown,Release" := by decide
+
 end Agd.Tie.C01
